@@ -1,11 +1,41 @@
 (* Props/C30.v — Bulk load equals transactional load.
    Only statements, `exact`, and Print Assumptions. *)
-From NDB Require Import Engine.Graph Engine.Model Engine.Known Engine.Witness.
+From Coq Require Import Permutation.
+From NDB Require Import Engine.Graph Engine.Model Engine.Known Engine.Witness Engine.Refine_proofs Engine.Compact_reads_proofs Engine.Bulk_proofs.
 
-(* the transactional load of a node / relationship list: one transaction per item *)
 Definition C30_refuted_statement : Prop :=
   m_eprops (bulk_open w_bn w_be) e01 = [(0, 1)] /\ m_eprop (bulk_open w_bn w_be) e01 0 = Some 5 /\
   m_eprops (run w_btx) e01 = [(0, 5)] /\ m_dump (bulk_open w_bn w_be) <> m_dump (run w_btx).
 Theorem C30_refuted : C30_refuted_statement.
 Proof. exact w_bulk. Qed.
 Print Assumptions C30_refuted.
+
+(* the general statement: for every valid input outside K-C30-parallel-props the bulk-loaded database
+   and the database loaded by one transaction per item (`load_txns`: same internal ids, same interner)
+   answer every read alike *)
+Definition C30_full_statement : Prop :=
+  forall ns es, bulk_valid ns es = true -> parallel_props es = false ->
+    same_reads_full (bulk_open ns es) (run (load_txns ns es)).
+
+(* proved, all inputs: what recovery makes of a bulk-loaded database and what it answers *)
+Definition C30_bulk_reads_partial_statement : Prop :=
+  forall ns es, let s := bulk_open ns es in
+    s.(runs) = [] /\ s.(segs) = [isort edge_leb (map (bulk_ekey ns es) es)] /\
+    m_nodes s = nseq 0 (length ns) /\
+    (forall n, Permutation (m_out s n) (filter (fun e => e_src e =? n) (map (bulk_ekey ns es) es))) /\
+    (forall n, Permutation (m_in s n) (filter (fun e => e_dst e =? n) (map (bulk_ekey ns es) es))) /\
+    (forall n k, m_nprop s n k = assoc nk_eqb (n, k) s.(store_n)) /\
+    (forall e k, m_eprop s e k = assoc ek_eqb (e, k) s.(store_e)).
+Theorem C30_bulk_reads_partial : C30_bulk_reads_partial_statement.
+Proof.
+  intros ns es s. destruct (bulk_open_state ns es) as (H1 & H2 & _). destruct (bulk_open_reads ns es) as (R1 & R2 & R3 & R4 & R5).
+  repeat split; assumption.
+Qed.
+Print Assumptions C30_bulk_reads_partial.
+
+(* proved, all inputs whose load history is well-formed: the transactional load answers like the spec graph of the load *)
+Definition C30_txn_reads_partial_statement : Prop :=
+  forall ns es, wf_hist (load_txns ns es) = true -> reads_agree (run (load_txns ns es)) (spec (load_txns ns es)).
+Theorem C30_txn_reads_partial : C30_txn_reads_partial_statement.
+Proof. exact load_txns_reads. Qed.
+Print Assumptions C30_txn_reads_partial.
